@@ -250,6 +250,15 @@ def run(ctx):
             rp = resolve_path(P, b, f[k])
             good = rp is not None and param_ty(rp[0], rp[1]).endswith("DnsMessage") and rp[2] == path
             ctx.check(good, "R4", "key.%s<-query.%s" % (k, ".".join(path[1:])), ctx.where(b, s["sp"]), "is %s" % show(f[k])[:80])
+    # ... and nowhere else in the cache is a key made up: an entry is only ever looked up under the key of the query being answered
+    for ob in P.bodies.values():
+        if ob.id == b.id or "dns::cache::" not in ob.id or "::test" in ob.id:
+            continue
+        for _, bb2, idx2, s2 in find_aggs(P, "cache::CacheKey", [ob]):
+            ctx.saw(ob)
+            ctx.bad("R4", "second-key-construction:%s" % ob.id.split("::{")[0].rsplit("::", 1)[-1], ctx.where(ob, s2["sp"]),
+                    "a cache key is built outside the query handler: whatever is looked up or stored under it is not the entry of the "
+                    "question being answered (name, type, DO and CD of the client's query)")
     for im in P.impls:
         if im["self_ty"].endswith("cache::CacheKey") and im["trait"] in ("std::cmp::PartialEq", "std::hash::Hash"):
             ctx.check(im["auto_derived"], "R4", "key-%s-derived" % im["trait"].split("::")[-1], "crates/erbium-core/src/dns/cache/mod.rs",
